@@ -68,6 +68,13 @@ type Collector struct {
 	PerturbMax int
 	// Points at which to perturb.
 	Points map[string]bool
+	// Focus: one long delay at the FocusNth occurrence of hook event FocusEv since the last
+	// ResetSeen - widens the window behind ONE chosen step of the scheduler by orders of magnitude,
+	// so that what the other goroutines do "in between" is whole API calls, not instructions.
+	FocusEv    string
+	FocusNth   int
+	FocusDelay time.Duration
+	focusSeen  int
 
 	// seen counts events by "ev:job" for Await.
 	seen map[string]int
@@ -98,6 +105,7 @@ func (c *Collector) Await(ev string, job, n int, timeout time.Duration) bool {
 func (c *Collector) ResetSeen() {
 	c.mu.Lock()
 	c.seen = map[string]int{}
+	c.focusSeen = 0
 	c.mu.Unlock()
 }
 
@@ -148,6 +156,12 @@ func (c *Collector) hook(e scheduler.VerifEvent) {
 			delay = time.Duration(c.rng.Intn(c.PerturbMax+1)) * time.Microsecond
 		}
 		yield = true
+	}
+	if c.FocusEv != "" && e.Ev == c.FocusEv {
+		c.focusSeen++
+		if c.focusSeen == c.FocusNth {
+			delay = c.FocusDelay
+		}
 	}
 	c.mu.Unlock()
 	if delay > 0 {
